@@ -2,8 +2,9 @@
 
 Generated: (atom, package) pairs.  The atom is built from *fields* (vf.ref.atom_match.atom_str), the
 package is a pkgcore.test.misc.FakePkg (EAPI 8, so IUSE defaults are stripped) carrying
-category/package/fullver/slot/subslot/repo.repo_id/use/iuse.  Four bounded-exhaustive families
-(every member is visited in both tiers) plus hypothesis pairs that mix all parts:
+category/package/fullver/slot/subslot/repo.repo_id/use/iuse.  Four bounded-exhaustive families (`use` and
+`constraints` are complete in both tiers and scheduled first; `versions` and `conditional` use a smaller pool in
+the quick tier) plus hypothesis pairs that mix all parts:
 
   versions     every op (7) x atom version pool x package version pool (same key + a few foreign keys)
   constraints  slot / sub-slot / slot operator / repository / blocker prefix x package slot/subslot/repo
@@ -65,6 +66,9 @@ OPS = ("<", "<=", "=", "~", ">=", ">", "=*")
 VERS = ["0", "1", "10", "1.0", "1.1", "1.10", "1.01", "1.0.1", "1a", "1b", "1_p", "1_p1", "1_p10", "1_pre",
         "1_pre1", "1_alpha", "1.1_p1", "2", "11", "1.0_rc1"]
 REVS = [None, "0", "1", "10", "2"]
+# quick tier: the part of the pool that carries every boundary / suffix / revision shape once
+VERS_QUICK = ["1", "10", "1.0", "1.1", "1.10", "1.01", "1a", "1_p", "1_p1", "1_pre", "2", "1.0_rc1"]
+REVS_QUICK = [None, "0", "1", "10"]
 FLAGS = ("f", "g", "h")
 
 
@@ -327,7 +331,9 @@ def check_conditional(ctx, objs, f, tokens, parent_use, p):
 
 # ---- universes ---------------------------------------------------------------------------------
 
-def version_pool():
+def version_pool(small=False):
+    if small:
+        return [(v, r) for v in VERS_QUICK for r in REVS_QUICK]
     return [(v, r) for v in VERS for r in REVS]
 
 
@@ -358,8 +364,8 @@ def spelled_iuse(iuse, i):
     return out
 
 
-def task_versions(ctx, objs, slice_, nslices):
-    pool = version_pool()
+def task_versions(ctx, objs, slice_, nslices, small=False):
+    pool = version_pool(small)
     atoms = []
     for op in OPS:
         for (v, r) in pool:
@@ -381,6 +387,7 @@ def task_versions(ctx, objs, slice_, nslices):
         for cat, pk in (("a", "xx"), ("aa", "x"), ("b", "x"), ("a", "x-y")):
             check(ctx, objs, f, mkpkg(cat=cat, pkg=pk, ver=f["ver"] or "1", rev=f.get("rev")))
     ctx.note("exhaustive_versions", True)
+    ctx.note("version_pool_size", len(pool))
 
 
 SLOTS_A = [None, "0", "1", "10", "1.2"]
@@ -439,10 +446,10 @@ def task_use(ctx, objs, slice_, nslices):
 COND_FORMS = ["{}?", "!{}?", "{}=", "!{}=", "{}(+)?", "!{}(-)?", "{}(-)=", "!{}(+)="]
 
 
-def task_conditional(ctx, objs, slice_, nslices):
+def task_conditional(ctx, objs, slice_, nslices, small=False):
     states = list(pkg_use_states())
     per = [[None] + [c.format(fl) for c in COND_FORMS] for fl in FLAGS[:2]]
-    plain3 = [None, "h", "-h", "-h(+)"]
+    plain3 = [None, "-h(+)"] if small else [None, "h", "-h", "-h(+)"]
     n = 0
     for combo in itertools.product(per[0], per[1], plain3):
         toks = [t for t in combo if t is not None]
@@ -536,14 +543,21 @@ def _valid_fullver(s):
 
 
 def plan(tier, seed):
+    """Order matters when the wall-clock guard stops generation on a loaded machine: the small exhaustive
+    families (USE-dep lists x IUSE/USE states first) are scheduled before the larger ones and before hypothesis,
+    and the quick tier is sized so that all of it fits the budget even with 4 jobs."""
     preload()
+    quick = tier == "quick"
     tasks = []
-    for name, n in (("versions", 6), ("constraints", 2), ("use", 2), ("conditional", 3)):
+    for name, n in (("use", 2), ("conditional", 2), ("constraints", 2), ("versions", 2 if quick else 6)):
         for i in range(n):
-            tasks.append({"task": name, "slice": i, "nslices": n})
-    if tier == "quick":
-        for i in range(6):
-            tasks.append({"task": "hyp", "examples": 700})
+            t = {"task": name, "slice": i, "nslices": n}
+            if name in ("versions", "conditional"):
+                t["small"] = quick
+            tasks.append(t)
+    if quick:
+        for i in range(4):
+            tasks.append({"task": "hyp", "examples": 500})
     else:
         for i in range(16):
             tasks.append({"task": "hyp", "examples": 20000})
@@ -553,13 +567,13 @@ def plan(tier, seed):
 def run_task(ctx, task, **kw):
     objs = Objs()
     if task == "versions":
-        task_versions(ctx, objs, kw["slice"], kw["nslices"])
+        task_versions(ctx, objs, kw["slice"], kw["nslices"], kw.get("small", False))
     elif task == "constraints":
         task_constraints(ctx, objs, kw["slice"], kw["nslices"])
     elif task == "use":
         task_use(ctx, objs, kw["slice"], kw["nslices"])
     elif task == "conditional":
-        task_conditional(ctx, objs, kw["slice"], kw["nslices"])
+        task_conditional(ctx, objs, kw["slice"], kw["nslices"], kw.get("small", False))
     elif task == "hyp":
         def f_pair(fp):
             check(ctx, objs, fp[0], fp[1], extra_classes=("hyp",))
